@@ -58,6 +58,10 @@ pub struct FundingModel {
     pub on: bool,
     pub phi: Vec<S>,
     pub l: std::collections::BTreeMap<(usize, usize), S>,
+    /// reference premium fraction of the settlement about to be executed: (vAMM TWAP - oracle TWAP) x period / one day from the
+    /// pre-state's own query answers; a successful settlement advances the model by it (by the observed movement if the
+    /// queries gave no answer)
+    pub ref_frac: Option<S>,
 }
 
 impl FundingModel {
@@ -68,12 +72,13 @@ impl FundingModel {
     }
     /// called once per executed step of the main history line (never for what-if experiments)
     pub fn step(&mut self, act: &crate::hist::Act, pre: &Obs, post: &Obs, ok: bool) {
+        let ref_frac = self.ref_frac.take();
         if !self.on || !ok {
             return;
         }
         use crate::hist::Act;
         if let Act::PayFunding { v, .. } = act {
-            let dphi = post.v[*v].cpf.sub(&pre.v[*v].cpf);
+            let dphi = ref_frac.unwrap_or_else(|| post.v[*v].cpf.sub(&pre.v[*v].cpf));
             self.phi[*v] = self.phi[*v].add(&dphi);
             return;
         }
@@ -94,6 +99,20 @@ impl FundingModel {
                 }
                 _ => {}
             }
+        }
+    }
+    /// to be called on the pre-state of a PayFunding step of the main history line
+    pub fn expect_settlement(&mut self, w: &World, pre: &Obs, v: usize) {
+        self.ref_frac = None;
+        if !self.on {
+            return;
+        }
+        let i = pre.v[v].cfg.spot_price_twap_interval;
+        let tw = w.query::<Uint128, _>(&w.vamms[v], &vamm::QueryMsg::TwapPrice { interval: i }).ok();
+        let un = w.query::<Uint128, _>(&w.vamms[v], &vamm::QueryMsg::UnderlyingTwapPrice { interval: i }).ok();
+        if let (Some(tw), Some(un)) = (tw, un) {
+            let period = pre.v[v].cfg.funding_period as u128;
+            self.ref_frac = Some(S::pos(tw.u128()).sub(&S::pos(un.u128())).mul(&S::pos(period)).div_trunc(&S::pos(86400)));
         }
     }
     pub fn owed(&self, v: usize, t: usize, signed_size: S, d: u128) -> Option<S> {
